@@ -135,6 +135,10 @@ def _edge_constraints(body, block):
             if i != "term" and d["rv"]["k"] == "discr":
                 subj = _subject(body, d["rv"]["pl"])
         flip = False
+        if subj is None:
+            dsl = M.real_defs(body, dl)
+            if len(dsl) == 1 and dsl[0][1] == "term" and fn_matches(dsl[0][2], r"::len$") and dsl[0][2]["args"]:
+                subj = "len of " + panics.operand_origin(body, dsl[0][2]["args"][0])      # `match x.len() { 0 => .., 1 => .., _ => .. }`
         if subj is None and body.local_ty(dl) == "bool":
             o = panics.operand_origin(body, sw["discr"])
             if o.startswith("field "):
@@ -1125,4 +1129,95 @@ def empty_repetition_rule(crate, prop, rule="C16.R9"):
                                t.file, t.line)
     r.stats["untyped_repetitions"] = n
     r.floor = 3
+    return r
+
+
+
+# ------------------------------------------------------------------ which formatter gets which shape
+
+def dispatch_rule(crate, prop, rule="C01.R6a"):
+    r = Result(rule, "type_def hands each shape of fields to the formatter serde's data model calls for: read off the tests that dominate each formatter call (MIR): unit::null only for Fields::Unit, unit::empty_array / newtype / tuple only for unnamed fields with 0 / 1 / more of them, unit::empty_object only for named fields with none of them (and no tag), named only for named fields.  A dispatch that goes through a classification of its own (an enum of shapes) is recorded as undecided")
+    b = crate.body("types::type_def")
+    if b is None:
+        r.fail(prop, "anchor-missing type_def", "not found")
+        return r
+    want = {"unit::null": {"fields": {2}}, "unit::empty_array": {"fields": {1}, "len": {0}}, "newtype::newtype": {"fields": {1}, "len": {1}},
+            "tuple::tuple": {"fields": {1}, "len": {"otherwise"}}, "unit::empty_object": {"fields": {0}, "len": {0}}, "named::named": {"fields": {0}}}
+    n = 0
+    for blk, t in b.calls():
+        if b.is_cleanup(blk):
+            continue
+        p = (t.get("fn") or {}).get("path") or ""
+        key = next((k for k in want if p.endswith("types::" + k)), None)
+        if key is None:
+            continue
+        n += 1
+        cons = _edge_constraints(b, blk)
+        fields = {v for s2, v in cons if re.search(r"^param syn::Fields$|syn::Fields$", s2)}
+        lens = {v for s2, v in cons if s2.startswith("len of ")}
+        w = want[key]
+        bad = (fields and not (fields & w["fields"])) or ("len" in w and lens and not (lens & w["len"]) and not ("otherwise" in w["len"] and lens - {0, 1}))
+        verdict = "BAD" if bad else "ok" if fields and ("len" not in w or lens) else "undecided"
+        f, l = M.user_span(t["span"])
+        r.inst(formatter=key, under={"fields (0 named, 1 unnamed, 2 unit)": sorted(map(str, fields)), "len": sorted(map(str, lens))}, verdict=verdict, where="%s:%s" % (f, l))
+        if bad:
+            r.fail(prop, "struct-dispatch %s" % key, "%s is called for fields %s with length test %s; serde's data model sends other shapes there" % (key, sorted(map(str, fields)), sorted(map(str, lens))), f, l)
+    if n == 0:
+        r.fail(prop, "anchor-missing dispatch", "type_def calls none of the shape formatters", b.file(), b.line())
+    r.floor = 4
+    return r
+
+
+def rename_all_fields_rule(crate, prop, rule="C09.R3"):
+    r = Result(rule, "StructAttr::from_variant (helpers included): a variant's own rename_all wins - where the two are combined with Option::or / or_else the variant's value is the receiver and the enum's rename_all_fields the argument - and rename_all_fields is only read for variants with named fields (every read is dominated by the `Fields::Named` outcome of a test on the variant's fields); combinations written some other way are recorded as undecided")
+    b = crate.ibody("attr::r#struct::StructAttr::from_variant")
+    if b is None:
+        r.fail(prop, "anchor-missing StructAttr::from_variant", "not found")
+        return r
+    n = 0
+    # (1) precedence
+    for blk, t in b.calls():
+        if b.is_cleanup(blk) or not fn_matches(t, r"option::Option::<T>::(or|or_else|xor)$") or len(t["args"]) < 2 or "Inflection" not in (t.get("arg_tys") or [""])[0]:
+            continue
+        recv = panics.operand_origin(b, t["args"][0])
+        arg_calls, _, _ = M.deep_slice(b, op_place(t["args"][1])["l"]) if op_place(t["args"][1]) is not None else ([], set(), [])
+        arg = panics.operand_origin(b, t["args"][1])
+        n += 1
+        f, l = M.user_span(t["span"])
+        variant_first = bool(re.search(r"VariantAttr\.rename_all$", recv))
+        enum_first = bool(re.search(r"EnumAttr\.rename_all_fields$", recv))
+        r.inst(fn=b.path, combined_with=(M.callee(t) or "").split("::")[-1], receiver=recv, argument=arg, variant_first=variant_first, where="%s:%s" % (f, l))
+        if enum_first:
+            r.fail(prop, "rename_all_fields-precedence StructAttr::from_variant", "rename_all of a struct variant takes the enum's rename_all_fields first: the variant's own #[..(rename_all)] must take precedence (serde's order)", f, l)
+    # (2) routing: reads of EnumAttr.rename_all_fields only for named fields
+    reads = []
+    for blk in range(b.n):
+        if b.is_cleanup(blk):
+            continue
+        for st in b.stmts(blk):
+            if st["k"] != "assign":
+                continue
+            rv = st["rv"]
+            pl = op_place(rv["op"]) if rv["k"] in ("use", "cast") else rv.get("pl") if rv["k"] in ("ref", "discr") else None
+            if pl is not None and ".rename_all_fields" in pl["p"]:
+                reads.append((blk, st))
+        t = b.term(blk)
+        if t["k"] == "call":
+            for a in t["args"]:
+                pl = op_place(a)
+                if pl is not None and ".rename_all_fields" in pl["p"]:
+                    reads.append((blk, t))
+    for blk, x in reads:
+        cons = _edge_constraints(b, blk)
+        fields = [v for s2, v in cons if re.search(r"syn::Fields$", s2)]
+        n += 1
+        verdict = "ok" if 0 in fields else "BAD" if fields and 0 not in fields else "undecided"
+        sp = (x.get("span") if isinstance(x, dict) else None) or b.span
+        f, l = M.user_span(sp)
+        r.inst(fn=b.path, read="EnumAttr.rename_all_fields", under_fields_test=fields, verdict=verdict, where="%s:%s" % (f, l))
+        if verdict == "BAD":
+            r.fail(prop, "rename_all_fields-routing StructAttr::from_variant", "rename_all_fields is read for a variant that is known not to have named fields", f, l)
+    if n == 0:
+        r.fail(prop, "anchor-missing rename_all_fields use", "from_variant neither combines rename_all with rename_all_fields nor reads it", b.file(), b.line())
+    r.floor = 2
     return r
